@@ -65,7 +65,7 @@ def split_args(s):
 
 def parse_text(txt, fname, model, problems):
     # structs / unions
-    for m in re.finditer(r"final class (_\w+) extends ffi\.(Struct|Union) \{(.*?)\n\}", txt, flags=re.S):
+    for m in re.finditer(r"final\s+class\s+(_\w+)\s+extends\s+ffi\.(Struct|Union)\s*\{(.*?)\n\}", txt, flags=re.S):
         cname, kind, body = m.group(1), m.group(2).lower(), m.group(3)
         members = []
         pending_ann = None
@@ -73,8 +73,8 @@ def parse_text(txt, fname, model, problems):
         for line in body.split("\n"):
             s = line.strip()
             if depth == 0:
-                am = re.fullmatch(r"@(ffi\.\w+)\(\)", s)
-                em = re.fullmatch(r"external\s+(.+?)\s+(\w+);", s)
+                am = re.fullmatch(r"@\s*(ffi\.\w+)\s*\(\s*\)", s)
+                em = re.fullmatch(r"external\s+(.+?)\s+(\w+)\s*;", s)
                 if am:
                     pending_ann = am.group(1)
                 elif em:
@@ -90,10 +90,10 @@ def parse_text(txt, fname, model, problems):
             depth += s.count("{") - s.count("}")
         model.structs["tag-" + cname] = {"members": members, "kind": kind, "incomplete": False, "file": fname}
     # natives
-    for m in re.finditer(r"@ffi\.Native<(.*?)>\(([^)]*)\)\s*(?://[^\n]*\n\s*)*external\s+[^\n]*?\s(\w+)\((.*?)\);", txt, flags=re.S):
+    for m in re.finditer(r"@ffi\.Native\s*<(.*?)>\s*\(([^)]*)\)\s*(?://[^\n]*\n\s*)*external\s+[^\n]*?\s(\w+)\s*\((.*?)\)\s*;", txt, flags=re.S):
         sig, opts, dart_fn, dart_params = m.group(1), m.group(2), m.group(3), m.group(4)
-        sm = re.fullmatch(r"(.*?) Function\((.*)\)", sig.strip(), flags=re.S)
-        symm = re.search(r"symbol:\s*'(\w+)'", opts)
+        sm = re.fullmatch(r"(.*?)\s+Function\s*\((.*)\)", sig.strip(), flags=re.S)
+        symm = re.search(r"symbol\s*:\s*['\"](\w+)['\"]", opts)
         if not sm or not symm:
             problems.append("%s: unrecognised Native annotation %r" % (fname, sig[:80]))
             continue
